@@ -308,13 +308,11 @@ func TestC19(t *testing.T) {
 	}
 	_ = session.MuxSessionInfo{}
 	muxProv.Start()
-	muxAddr := muxProv.(interface{ Address() string })
-	_ = muxAddr
 	for _, cred := range creds {
 		for _, lst := range []string{"tcp", "mux"} {
 			addr := pp.InboundAddr
 			if lst == "mux" {
-				addr = mux.VerifAddress(muxProv)
+				addr = muxProv.Address()
 			}
 			got := "refuse"
 			raw, err := net.DialTimeout("tcp", addr, 3*time.Second)
